@@ -26,7 +26,8 @@ Next ==
     \* passed a sync point (`settled` = the state after the NOOPs that follow), every message file of the
     \* folder is a message of the mailbox (C13: "announced ... once the modification time has advanced")
     /\ ("settled" \in DOMAIN Wins[i]) =>
-          \A m \in DOMAIN Wins[i].settled.mb :
+          \A m \in {mm \in DOMAIN Wins[i].settled.mb :       \* (a mailbox somebody still has selected: its NOOP is the sync point)
+                        \E s \in DOMAIN Wins[i].settled.ss : Wins[i].settled.ss[s].sel = mm} :
               LET x == Mb(Wins[i].settled.mb[m]) IN
               (\E f \in x.files : \A j \in DOMAIN x.msgs : x.msgs[j].key # f[1])
                   => PrintT(<<"VIOL", i, m, "C13.AnnouncedAfterSync">>)
